@@ -22,6 +22,11 @@ C->S  Trace_ECDSA: the library's Public_key.verifies / Private_key.sign / Signin
       accepted by the unchanged library -- for the data / digest arguments of sign*, verify*, each judged like bytes.
       Hash pairs: sign_digest_deterministic(digest of hash A, HMAC-DRBG hash B), sizes differing, against the independent
       RFC 6979 implementation.
+      Many rejected nonce candidates: the independent RFC 6979 generator counts the rounds of step H3; a bounded, seeded
+      search (longer in the thorough tier) picks messages with the longest runs on the curves whose order is not close to
+      a power of two (SECP160r1, BRAINPOOL*, SECP112r1/r2); fixed witness with 21 rejections on SECP160r1.
+      Related keys (d and n-d: same x; d+1; 2d; 1/d) verified alternately in one process with nothing in between, on the
+      model curves (TLC) and on every shipped curve (library + OpenSSL): every valid signature must verify.
       Trace_ECOracle: the 17 shipped curves x SHA-1..SHA-512 x encodings: library signs -> OpenSSL verifies,
       OpenSSL signs -> library verifies, every tampered message / signature / key judged by both, out-of-range and
       malformed signatures, and RFC 6979 signatures rebuilt from an independent nonce generator + OpenSSL's k*G."""
@@ -43,7 +48,7 @@ def _mc_cfg(name, invs):
 
 
 # ====================================================================== independent RFC 6979 (section 3.2), hmac/hashlib only
-def rfc6979_k(n, x, hname, h1):
+def rfc6979_k(n, x, hname, h1, count=False):
     qlen = n.bit_length()
     rlen = (qlen + 7) // 8
     H = getattr(hashlib, hname)
@@ -65,6 +70,7 @@ def rfc6979_k(n, x, hname, h1):
     V, K = b"\x01" * hlen, b"\x00" * hlen
     K = mac(K, V + b"\x00" + int2octets(x) + bits2octets(h1)); V = mac(K, V)
     K = mac(K, V + b"\x01" + int2octets(x) + bits2octets(h1)); V = mac(K, V)
+    rejected = 0
     while True:
         T = b""
         while len(T) < rlen:
@@ -72,7 +78,8 @@ def rfc6979_k(n, x, hname, h1):
             T += V
         k = bits2int(T)
         if 1 <= k < n:
-            return k
+            return (k, rejected) if count else k
+        rejected += 1                      # candidate out of range: step H3 of RFC 6979 goes round again
         K = mac(K, V + b"\x00"); V = mac(K, V)
 
 
@@ -216,6 +223,14 @@ def _record_tiny(args):
             for rr, ss in [(0, 1), (1, 0), (n, 1), (1, n), (n + 1, n - 1), (255, 255), (r.randrange(1, n), r.randrange(1, n))]:
                 do("verdig", d=d, dig=dig, out=[rr, ss])
         if allvias:
+            # RELATED keys verified alternately on the shared generator object, nothing in between: Q and -Q (d, n-d: same x),
+            # d+1, 2d, 1/d -- every row judged by TLC as usual
+            for d2 in sorted({n - d, d % (n - 1) + 1, 2 * d % n, pow(d, -1, n)} - {0, d}):
+                for z in (1, 4):
+                    for rr in range(1, n):
+                        do("verrow", via="jac", d=d, z=z, r=rr)
+                        do("verrow", via="jac", d=d2, z=z, r=rr)
+                        do("verrow", via="jac", d=d, z=z, r=rr)
             # error path: first sign / verifies interrupted inside the lazy table set-up of the generator (every line-event
             # position, and one beyond), then ordinary calls on the same objects, judged as usual
             code = eclib.precompute_code()
@@ -542,6 +557,59 @@ def _oracle_curve(args):
                 lv, cls = "reject", type(e).__name__
             ev("accept", tag + "OpenSSL-made %s signature" % hname, lv, q_verify(hname, osigs[hname], msg), cls)
 
+    def extras2():
+        # ---- H. RFC 6979 with MANY rejected nonce candidates: the independent generator counts how often step H3 goes round;
+        #         a bounded, seeded search picks the (key, message) pairs with the longest runs on the curves whose order is
+        #         not close to a power of two (a candidate of qlen bits is out of range with probability 1 - n / 2^qlen)
+        prej = 1 - n / 2.0 ** nb
+        if prej > 0.05:
+            budget = (1 << 20 if cv.name == "SECP160r1" else 150000) if thorough else 12000
+            found = []
+            H = hashlib.sha256
+            for i in range(budget):
+                m = b"C18 %s rejection search %d/%d" % (cv.name.encode(), i, r.randrange(1 << 30) if i % 1000 == 0 else 0)
+                h1 = H(m).digest()
+                k, rej = rfc6979_k(n, d, "sha256", h1, True)
+                if len(found) < 3 or rej > found[-1][0]:
+                    found = sorted(found + [(rej, m, k, h1)], key=lambda t_: -t_[0])[:3]
+            for rej, m, k, h1 in found:
+                det_event("RFC 6979 with %d rejected candidates before the nonce (search of %d messages, P(reject) = %.2f): sha256 msg=%r sign_deterministic"
+                          % (rej, budget, prej, m), lambda: sk.sign_deterministic(m, hashfunc=H, sigencode=simple), k, h1)
+                accept_event("RFC 6979 with %d rejected candidates: sha256 msg=%r sign_deterministic -> library and OpenSSL verify" % (rej, m), "sha256",
+                             lambda: sk.sign_deterministic(m, hashfunc=H, sigencode=util.sigencode_der), m)
+        if cv.name == "SECP160r1":
+            dw, mw = 0x00A1B2C3D4E5F60718293A4B5C6D7E8F90123456, b"bec2format C18 message #417257"
+            h1 = hashlib.sha256(mw).digest()
+            k, rej = rfc6979_k(n, dw, "sha256", h1, True)
+            if rej != 21:
+                raise MachineryError("independent RFC 6979 generator: the fixed witness has %d rejected candidates, expected 21" % rej)
+            det_event("RFC 6979 fixed witness with 21 rejected candidates: SECP160r1 sha256 d=%#x msg=%r sign_deterministic" % (dw, mw),
+                      lambda: keys.SigningKey.from_secret_exponent(dw, cv).sign_deterministic(mw, hashfunc=hashlib.sha256, sigencode=simple), k, h1, dw)
+        # ---- I. RELATED keys verified alternately in one process, nothing in between: Q and -Q (d, n-d: same x), d+1, 2d, 1/d.
+        #         Every signature is valid: library (fresh key objects on the shared curve generator) and OpenSSL must accept
+        hname = "sha256"
+        H = hashlib.sha256
+        msg = msgs[hname]
+        for pi, (rel, dp) in enumerate((("n-d (the negated point, same x)", n - d), ("d+1", d % (n - 1) + 1), ("2d", 2 * d % n), ("1/d", pow(d, -1, n)))):
+            if dp in (0, d):
+                continue
+            pubp = files.put(eclib.ossl_pub_raw(cv, dp)[1], "pubr")
+            try:
+                skp = keys.SigningKey.from_secret_exponent(dp, cv)
+                sigs = {"A": sk.sign_deterministic(msg, hashfunc=H, sigencode=util.sigencode_der),
+                        "B": skp.sign_deterministic(msg, hashfunc=H, sigencode=util.sigencode_der)}
+                vks = {"A": keys.VerifyingKey.from_string(vk.to_string(), cv), "B": keys.VerifyingKey.from_string(skp.verifying_key.to_string(), cv)}
+            except Exception as e:
+                ev("flags", "related keys d and %s: set-up raised %s" % (rel, eclib.mro(e)), [0], [], type(e).__name__)
+                continue
+            for step, who in enumerate("ABAB" if pi % 2 == 0 else "BABA"):
+                lv, cls = lib_verify(vks[who], sigs[who], msg, H, util.sigdecode_der)
+                ev("accept", "related keys d and %s verified alternately, step %d: valid signature of key %s (%s) -> library and OpenSSL verify"
+                   % (rel, step + 1, who, "d" if who == "A" else rel), lv, q_verify(hname, sigs[who], msg, None if who == "A" else pubp), cls)
+            # and an invalid one in the same rhythm: signature of A offered to B
+            lv, cls = lib_verify(vks["B"], sigs["A"], msg, H, util.sigdecode_der)
+            ev("verdict", "related keys d and %s: signature of d offered to the other key" % rel, lv, q_verify(hname, sigs["A"], msg, pubp), cls)
+
     for hname in HASHES:
         try:
             per_hash(hname)
@@ -551,13 +619,14 @@ def _oracle_curve(args):
             ev("flags", "%s: the library raised %s: %s while producing the events of this hash" % (hname, eclib.mro(e), str(e)[:200]), [0], [],
                type(e).__name__)
 
-    try:
-        extras()
-    except MachineryError:
-        raise
-    except Exception as e:
-        ev("flags", "the library raised %s: %s while producing the constructor / buffer-form / hash-pair events" % (eclib.mro(e), str(e)[:200]), [0], [],
-           type(e).__name__)
+    for part in (extras, extras2):
+        try:
+            part()
+        except MachineryError:
+            raise
+        except Exception as e:
+            ev("flags", "the library raised %s: %s while producing the constructor / buffer-form / hash-pair / rejection / related-key events"
+               % (eclib.mro(e), str(e)[:200]), [0], [], type(e).__name__)
 
     # ---- OpenSSL: k*G for the deterministic nonces, then all verification queries
     uk = sorted({t[2] for t in det_k})
